@@ -63,6 +63,8 @@ struct Rec {
     wstruct: Vec<Wid>,
     syn_ok: bool,
     has_syn: bool,
+    /// number of synonym group ids in column 18 (2 = the usual `1/22`)
+    syn_n: usize,
     splits_concat: bool,
 }
 #[derive(Clone, Debug)]
@@ -80,6 +82,16 @@ struct Case {
 const SYS_NL: i64 = 4;
 const SYS_NR: i64 = 3;
 const SYS_WORDS: usize = 6;
+
+/// the model knows a surface by a number: equal numbers = byte-identical surfaces (FNV-1a over the bytes)
+fn surface_key(s: &str) -> u64 {
+    let mut h: u64 = 0xcbf29ce484222325;
+    for b in s.as_bytes() {
+        h ^= *b as u64;
+        h = h.wrapping_mul(0x100000001b3);
+    }
+    h
+}
 
 fn surface_of(i: usize) -> String {
     format!("{}{}", KANA[(i / 10) % 10], KANA[i % 10])
@@ -153,7 +165,13 @@ impl Case {
             cols.push(wids_text(&r.split_b));
             cols.push(wids_text(&r.wstruct));
             if r.has_syn {
-                cols.push(if r.syn_ok { "1/22".to_string() } else { "1/x".to_string() });
+                cols.push(if r.syn_n != 2 {
+                    (0..r.syn_n).map(|k| (k + 1).to_string()).collect::<Vec<_>>().join("/")
+                } else if r.syn_ok {
+                    "1/22".to_string()
+                } else {
+                    "1/x".to_string()
+                });
             }
             cols.truncate(r.ncols);
             s.push_str(&cols.join(","));
@@ -197,7 +215,7 @@ impl Case {
         };
         let recs = clist(self.recs.iter().map(|r| {
             format!(
-                "mkRec {} {} {} {} {} {} {} {} {} {} {} {} {} {}",
+                "mkRec {} {} {} {} {} {} {} {} {} {} {} {} {} {} {}",
                 cz(r.ncols as i64),
                 cbool(r.strings == StrKind::Ok),
                 cbool(r.surface.is_empty()),
@@ -217,7 +235,8 @@ impl Case {
                 clist(r.wstruct.iter().map(wid)),
                 cbool(r.syn_ok || !r.has_syn),
                 cbool(r.splits_concat),
-                cbool(r.surface.contains('\0'))
+                cbool(r.surface.contains('\0')),
+                cn(surface_key(&r.surface))
             )
         }));
         format!("(mkInput {} {})", base, recs)
@@ -466,6 +485,60 @@ fn audit_dictionary(env: &Env, user: bool, bytes: &[u8]) -> Option<String> {
     None
 }
 
+/// the index of a compiled dictionary, through the public API: the word ids `lookup` returns for a surface are exactly the
+/// indexed words (left_id >= 0) of that dictionary which have this surface -- none lost, none invented.
+/// Only for lexicons rendered by this file (column 0 = column 4, so that WordInfo::surface is the key of the index).
+fn index_audit(env: &Env, user: bool, bytes: &[u8]) -> Option<String> {
+    use sudachi::dic::word_id::WordId;
+    let cfg = config(env);
+    let r = catch(|| {
+        let mut data = SudachiDicData::new(Storage::Owned(if user { env.sys_bytes.clone() } else { bytes.to_vec() }));
+        if user {
+            data.add_user(Storage::Owned(bytes.to_vec()));
+        }
+        JapaneseDictionary::from_cfg_storage(&cfg, data)
+    });
+    let dict = match r {
+        Ok(Ok(d)) => d,
+        _ => return None, // reported by load_and_analyse
+    };
+    let total = dict.lexicon().size() as usize;
+    let (dic, n) = if user { (1u8, total - SYS_WORDS.min(total)) } else { (0u8, total) };
+    let mut by_surface: std::collections::BTreeMap<String, Vec<u32>> = Default::default();
+    for i in 0..n {
+        let wid = WordId::new(dic, i as u32);
+        let (l, _r, _c) = dict.lexicon().get_word_param(wid);
+        if l < 0 {
+            continue;
+        }
+        match catch(|| dict.lexicon().get_word_info(wid)) {
+            Ok(Ok(info)) => by_surface.entry(info.surface().to_string()).or_default().push(i as u32),
+            _ => return None, // reported by the audit of the entries
+        }
+    }
+    for (s, ids) in by_surface.iter() {
+        let found = catch(|| {
+            let mut v: Vec<u32> = dict.lexicon().lookup(s.as_bytes(), 0).filter(|e| e.end == s.len() && e.word_id.dic() == dic).map(|e| e.word_id.word()).collect();
+            v.sort();
+            v
+        });
+        match found {
+            Err(p) => return Some(format!("lookup of the surface {:?} in the compiled dictionary panicked: {}", s, p)),
+            Ok(v) => {
+                if &v != ids {
+                    let missing: Vec<u32> = ids.iter().filter(|i| !v.contains(i)).cloned().collect();
+                    let extra: Vec<u32> = v.iter().filter(|i| !ids.contains(i)).cloned().collect();
+                    return Some(format!(
+                        "{} indexed entries of the lexicon have the surface {:?}; looking that surface up in the compiled dictionary returns {} word ids ({} of the entries are not found, first: {:?}; {} ids that are not such entries, first: {:?})",
+                        ids.len(), s, v.len(), missing.len(), missing.first(), extra.len(), extra.first()
+                    ));
+                }
+            }
+        }
+    }
+    None
+}
+
 /// two dictionaries are the same up to the creation time stored in the header (bytes 8..16)
 fn same_dict(a: &[u8], b: &[u8]) -> bool {
     a.len() == b.len() && (a.len() < 16 || (a[..8] == b[..8] && a[16..] == b[16..]))
@@ -593,7 +666,7 @@ fn probes(case: &Case) -> Vec<String> {
 }
 
 fn desc(case: &Case, matrix: &Option<String>, lexicon: &str, shape: &str) -> Value {
-    let lx: String = if lexicon.len() > 3000 { format!("{}...[{} bytes]", lexicon.chars().take(300).collect::<String>(), lexicon.len()) } else { lexicon.to_string() };
+    let lx: String = if lexicon.len() > 200_000 { format!("{}...[{} bytes]", lexicon.chars().take(300).collect::<String>(), lexicon.len()) } else { lexicon.to_string() };
     json!({"kind": "c06", "shape": shape, "user": matches!(case.base, Base::User), "matrix": matrix, "lexicon": lx,
            "known_class": if case.recs.iter().any(|r| !r.splits_concat) { KNOWN_SPLIT } else { "" }})
 }
@@ -601,11 +674,11 @@ fn desc(case: &Case, matrix: &Option<String>, lexicon: &str, shape: &str) -> Val
 fn emit(sink: &mut Sink, env: &Env, rng: &mut Rng, case: &Case, shape: &str) {
     let matrix = case.matrix_text(rng);
     let lexicon = case.lexicon_text();
-    run_texts(sink, env, Some(case), matrix, lexicon, shape, false);
+    run_texts(sink, env, Some(case), matrix, lexicon, shape, false, true);
 }
 
 /// run one (matrix text, lexicon text) pair; with `case` the Coq term is produced too
-fn run_texts(sink: &mut Sink, env: &Env, case: Option<&Case>, matrix: Option<String>, lexicon: String, shape: &str, verbose: bool) {
+fn run_texts(sink: &mut Sink, env: &Env, case: Option<&Case>, matrix: Option<String>, lexicon: String, shape: &str, verbose: bool, rendered_here: bool) {
     let user = matrix.is_none();
     let b = build(env, matrix.as_ref().map(|m| m.as_bytes()), lexicon.as_bytes());
     let pr = match case {
@@ -627,8 +700,24 @@ fn run_texts(sink: &mut Sink, env: &Env, case: Option<&Case>, matrix: Option<Str
         }
         None => json!({"kind": "c06-raw", "shape": shape, "matrix": matrix, "lexicon": lexicon, "known_class": ""}),
     };
+    // most frequent surface among the indexed rows (only for lexicons rendered by this file)
+    let mut most: Option<(String, usize)> = None;
+    if rendered_here {
+        let mut count: std::collections::BTreeMap<String, usize> = Default::default();
+        for r in parse_back_lexicon(&lexicon) {
+            if matches!(r.left, Num::Lit(x) if x >= 0) {
+                *count.entry(r.surface.clone()).or_default() += 1;
+            }
+        }
+        most = count.into_iter().max_by_key(|(_, k)| *k);
+    }
     if verbose {
-        println!("matrix text: {:?}\nlexicon text: {:?}", matrix, lexicon);
+        if let Some((s, k)) = &most {
+            if *k > 100 {
+                println!("{} indexed rows (left_id >= 0) have the surface {:?}: their ids form one array of the word-id table, the format allows 127 elements", k, s);
+            }
+        }
+        println!("matrix text: {:?}\nlexicon text: {:?}", matrix, if lexicon.len() > 4000 { format!("{}...[{} bytes]", lexicon.chars().take(600).collect::<String>(), lexicon.len()) } else { lexicon.clone() });
         println!("implementation: build {} {}", b.status, b.msg);
         println!("  compiled bytes: {}; loads and analyses: {} {}", b.bytes.len(), lr.ok, lr.msg);
         println!("  second compile on the same builder: {} {}; same outcome and bytes: {}", b.second_status, b.second_msg, b.second_same);
@@ -676,6 +765,19 @@ fn run_texts(sink: &mut Sink, env: &Env, case: Option<&Case>, matrix: Option<Str
     if b.status == "SOk" {
         if let Some(what) = check_header(env, &b.bytes) {
             sink.fail(id, &what, "");
+        }
+        if let Some((s, k)) = &most {
+            if *k > 127 {
+                sink.fail(id, &format!("compilation reported success for a lexicon in which {} indexed rows have the surface {:?}: the ids of one surface form one array of the word-id table, which the format limits to 127 elements", k, s), "");
+            }
+        }
+        if rendered_here {
+            if let Some(what) = index_audit(env, user, &b.bytes) {
+                if verbose {
+                    println!("  index read back: {}", what);
+                }
+                sink.fail(id, &format!("compilation reported success, but {}", what), "");
+            }
         }
     }
 }
@@ -780,7 +882,7 @@ struct CallObs {
 }
 
 /// run a history on the implementation; every successful compile is audited, loaded and used for analysis
-fn observe_history(env: &Env, user: bool, ops: &[Op], probes: &[String]) -> Vec<CallObs> {
+fn observe_history(env: &Env, user: bool, ops: &[Op], probes: &[String], rendered_here: bool) -> Vec<CallObs> {
     let rs = run_history(env, user, ops);
     ops.iter()
         .zip(rs.into_iter())
@@ -791,6 +893,12 @@ fn observe_history(env: &Env, user: bool, ops: &[Op], probes: &[String]) -> Vec<
                     if let Some(a) = audit_dictionary(env, user, &r.bytes) {
                         ob.fine = false;
                         ob.problem = a;
+                    }
+                    if rendered_here && ob.fine {
+                        if let Some(a) = index_audit(env, user, &r.bytes) {
+                            ob.fine = false;
+                            ob.problem = a;
+                        }
                     }
                     let lr = load_and_analyse(env, user, &r.bytes, probes);
                     ob.dims = lr.dims;
@@ -829,7 +937,7 @@ fn emit_history(sink: &mut Sink, env: &Env, user: bool, hops: &[HOp], shape: &st
         }
     }
     probes.push("x1。".to_string());
-    let obs = observe_history(env, user, &ops, &probes);
+    let obs = observe_history(env, user, &ops, &probes, true);
     let coq_ops = clist(hops.iter().map(|o| match o {
         HOp::Conn(lines, _) => format!("OConn {}", Case { base: Base::System(lines.clone()), recs: vec![] }.coq_lines()),
         HOp::Lex(recs, _) => format!("OLex {}", Case { base: Base::User, recs: recs.clone() }.coq_recs()),
@@ -915,8 +1023,9 @@ fn parse_back_lexicon(t: &str) -> Vec<Rec> {
             split_a: wids(g(15)),
             split_b: wids(g(16)),
             wstruct: wids(g(17)),
-            syn_ok: c.len() < 19 || g(18) == "1/22",
+            syn_ok: c.len() < 19 || g(18) == "1/22" || (g(18).split('/').count() <= 127 && g(18).split('/').all(|x| !x.is_empty() && x.chars().all(|ch| ch.is_ascii_digit()))),
             has_syn: c.len() >= 19,
+            syn_n: if c.len() >= 19 { g(18).split('/').count() } else { 2 },
             splits_concat: true,
         }
     }).collect()
@@ -935,7 +1044,7 @@ fn replay_history(sink: &mut Sink, env: &Env, c: &Value) {
                 _ => Op::Compile(Attempt::Good),
             });
         }
-        let obs = observe_history(env, user, &ops, &["ああいいううええ".to_string()]);
+        let obs = observe_history(env, user, &ops, &["ああいいううええ".to_string()], false);
         println!("history on one {} builder (implementation only; failing sinks of the original run are replayed as good sinks):", if user { "user-dictionary" } else { "system-dictionary" });
         let id = sink.case_rust_only(json!({"kind": "c06-history", "shape": "replay"}), true);
         let mut conn_ok = false;
@@ -1109,7 +1218,7 @@ fn rust_only_history(sink: &mut Sink, env: &Env, rng: &mut Rng) {
         ops.push(o);
         names.push(n.to_string());
     }
-    let obs = observe_history(env, user, &ops, &["ああいいううええ".to_string()]);
+    let obs = observe_history(env, user, &ops, &["ああいいううええ".to_string()], false);
     sink.tag(if user { "history_rust_only:user" } else { "history_rust_only:system" });
     sink.tag_n("history_calls", ops.len() as u64);
     let jops: Vec<Value> = ops.iter().map(|o| match o {
@@ -1174,8 +1283,33 @@ fn good_rec(i: usize, nl: i64, nr: i64, rng: &mut Rng) -> Rec {
         wstruct: vec![],
         syn_ok: true,
         has_syn: true,
+        syn_n: 2,
         splits_concat: true,
     }
+}
+
+/// `k` indexed rows with one and the same surface (the ids of such rows form ONE array of the word-id table, limit 127),
+/// `unindexed` more rows of that surface with left_id -1 (they are not in the index), a few other rows in between
+fn homograph_recs(k: usize, unindexed: usize, slot: usize, nl: i64, nr: i64, rng: &mut Rng) -> Vec<Rec> {
+    let indexed = |mut r: Rec, rng: &mut Rng| -> Rec {
+        r.left = Num::Lit(rng.below(nr.max(1) as u64) as i64);
+        r.right = Num::Lit(rng.below(nl.max(1) as u64) as i64);
+        r
+    };
+    let mut recs = vec![indexed(good_rec(slot + 1, nl, nr, rng), rng)];
+    for h in 0..k {
+        recs.push(indexed(good_rec(slot, nl, nr, rng), rng));
+        if h == k / 2 {
+            recs.push(good_rec(slot + 2, nl, nr, rng));
+            for _ in 0..unindexed {
+                let mut r = good_rec(slot, nl, nr, rng);
+                r.left = Num::Lit(-1);
+                r.right = Num::Lit(-1);
+                recs.push(r);
+            }
+        }
+    }
+    recs
 }
 
 /// valid lexicon of n rows for an nl x nr matrix, with compounds whose splits concatenate
@@ -1314,9 +1448,42 @@ fn mutate_rec(recs: &mut Vec<Rec>, nl: i64, nr: i64, user: bool, rng: &mut Rng) 
             "word_structure_grid"
         }
         10 => {
+            // every per-entry array at its limit: 127 items are taken, 128 are an error value
             let k = if rng.chance(1, 2) { 127 } else { 128 };
-            r.wstruct = (0..k).map(|_| Wid::Lit(user, 0)).collect();
-            "array_length_127_128"
+            let j = (i + 1) % n;
+            match rng.below(4) {
+                0 => {
+                    r.wstruct = (0..k).map(|_| Wid::Lit(user, 0)).collect();
+                    "array_length_127_128"
+                }
+                1 | 2 if j != i => {
+                    // split units that spell the headword: the other row, k times
+                    let which_a = rng.chance(1, 2);
+                    let part = recs[j].surface.clone();
+                    let r = &mut recs[i];
+                    r.surface = part.repeat(k);
+                    r.mode = Some(if which_a { 2 } else { 1 });
+                    r.dic_form = None;
+                    r.wstruct = vec![];
+                    let refs: Vec<Wid> = (0..k).map(|_| Wid::Lit(user, j as i64)).collect();
+                    if which_a {
+                        r.split_a = refs;
+                        r.split_b = vec![];
+                        "split_a_length_127_128"
+                    } else {
+                        r.split_b = refs;
+                        r.split_a = vec![];
+                        "split_b_length_127_128"
+                    }
+                }
+                _ => {
+                    r.has_syn = true;
+                    r.ncols = 19;
+                    r.syn_n = k;
+                    r.syn_ok = k <= 127;
+                    "synonym_ids_127_128"
+                }
+            }
         }
         11 => {
             r.has_syn = true;
@@ -1578,7 +1745,7 @@ fn run_raw(sink: &mut Sink, env: &Env, matrix: Option<Vec<u8>>, lexicon: Vec<u8>
 pub fn run(args: &Args) {
     let mut sink = Sink::new("C06", &args.out, &["Model.GuardLang", "Model.Params", "Model.Build", "Model.BuildHistory"], args.seed, &args.tier);
     sink.shard_size = 60;
-    sink.rule("system dictionaries (matrix text nl x nr in 0..6, square and non-square, blank lines / tabs / missing cells) and user dictionaries (against a 4x3 system dictionary) with 1..14 rows incl. compounds with split / word-structure references; structured stream = valid input with exactly one damaged aspect (row arity, left/right/cost from the boundary grid, over-long string / bad escape, dangling or malformed references, array length 127/128, mode, synonyms, empty surface; matrix: empty text, header arity / sign / non-numeric, coordinates at and beyond the dimension, negative, wrong arity); malformed stream = byte-level damage (truncation, quotes, invalid UTF-8, swaps); every case compiles twice on one builder (second outcome and bytes must equal the first) after resolving twice; other routes = `sudachi build` / `ubuild` and sudachipy.build_system_dic / build_user_dic from the working tree on 1..2500-row inputs (normal: output file = in-process bytes; failing output file at 5 offsets: must report an error) and a sixth of the structured system cases through the command-line tool; fault enumeration = sink accepting exactly k bytes for every k (quick: every k of small dictionaries), each followed by a retry on the same builder into a good sink (Err or the bytes of a fresh build), plus longer histories [fail, fail, one byte per call, good]; non-trivial = compilation failed or more than one row; distinct by generated Coq term");
+    sink.rule("system dictionaries (matrix text nl x nr in 0..6, square and non-square, blank lines / tabs / missing cells) and user dictionaries (against a 4x3 system dictionary) with 1..14 rows incl. compounds with split / word-structure references; structured stream = valid input with exactly one damaged aspect (row arity, left/right/cost from the boundary grid, over-long string / bad escape, dangling or malformed references, split lists / word structure / synonym ids of 127 and 128 items, mode, synonyms, empty surface; matrix: empty text, header arity / sign / non-numeric, coordinates at and beyond the dimension, negative, wrong arity); malformed stream = byte-level damage (truncation, quotes, invalid UTF-8, swaps); directed: 126..300 indexed rows with one surface (the id array of the word-id table: 127 compile and each row is found by lookup, 128+ are an error value), in one lexicon, next to unindexed rows of that surface, for two surfaces, over several read_lexicon calls; every case compiles twice on one builder (second outcome and bytes must equal the first) after resolving twice; other routes = `sudachi build` / `ubuild` and sudachipy.build_system_dic / build_user_dic from the working tree on 1..2500-row inputs (normal: output file = in-process bytes; failing output file at 5 offsets: must report an error) and a sixth of the structured system cases through the command-line tool; fault enumeration = sink accepting exactly k bytes for every k (quick: every k of small dictionaries), each followed by a retry on the same builder into a good sink (Err or the bytes of a fresh build), plus longer histories [fail, fail, one byte per call, good]; non-trivial = compilation failed or more than one row; distinct by generated Coq term");
     let dir = args.work.join("c06_res");
     std::fs::create_dir_all(&dir).unwrap();
     std::fs::copy(format!("{}/sudachi/tests/resources/char.def", repo()), dir.join("char.def")).unwrap();
@@ -1614,7 +1781,7 @@ pub fn run(args: &Args) {
             return;
         }
         let m = matrix.map(|m| String::from_utf8_lossy(&m).to_string());
-        run_texts(&mut sink, &env, None, m.clone(), String::from_utf8_lossy(&lexicon).to_string(), "replay", true);
+        run_texts(&mut sink, &env, None, m.clone(), String::from_utf8_lossy(&lexicon).to_string(), "replay", true, c["kind"] == "c06");
         if c["shape"] == "fault_enumeration" {
             let mb = m.as_ref().map(|x| x.as_bytes());
             let fresh = build(&env, mb, &lexicon).bytes;
@@ -1674,6 +1841,39 @@ pub fn run(args: &Args) {
     ];
     for (shape, c) in &directed {
         emit(&mut sink, &env, &mut rng, c, shape);
+    }
+    // a row whose left_id is negative but not -1 is not indexed either: next to an indexed row it compiles, and analysis of
+    // its surface must not meet it in the lattice
+    for (l, r) in [(-2i64, 0i64), (-2, -2), (-3, 1), (-32768, 0), (-1, 0)] {
+        for user in [false, true] {
+            let mut recs = one(0, 0);
+            let mut second = good_rec(1, 1, 1, &mut Rng::new(8));
+            second.left = Num::Lit(l);
+            second.right = Num::Lit(r);
+            recs.push(second);
+            let case = Case { base: if user { Base::User } else { m33(vec![]) }, recs };
+            emit(&mut sink, &env, &mut rng, &case, "directed_negative_left_id_is_not_indexed");
+        }
+    }
+    // the arrays of the word-id table: 126 .. 300 indexed rows with one surface (127 is the limit of the format: it must
+    // compile and every one of the rows must be found under the surface; 128 and more must be an error value)
+    for (k, unindexed, user) in [(126usize, 0usize, false), (127, 0, false), (128, 0, false), (129, 0, false), (255, 0, false), (256, 0, false), (257, 0, false), (300, 0, false),
+                                 (127, 5, false), (128, 3, false), (127, 0, true), (128, 0, true), (256, 2, true)] {
+        let mut r5 = Rng::new(500 + k as u64 + unindexed as u64);
+        let (nl, nr) = if user { (SYS_NL, SYS_NR) } else { (3, 2) };
+        let recs = homograph_recs(k, unindexed, 50, nl, nr, &mut r5);
+        let case = Case { base: if user { Base::User } else { Base::System(good_matrix(nl, nr, &mut Rng::new(3))) }, recs };
+        emit(&mut sink, &env, &mut rng, &case, &format!("directed_homographs_{}{}", k, if unindexed > 0 { "_plus_unindexed" } else { "" }));
+    }
+    {
+        // two surfaces: 127 + 127 compile, 127 + 128 do not
+        for second in [127usize, 128] {
+            let mut r5 = Rng::new(600 + second as u64);
+            let mut recs = homograph_recs(127, 1, 50, 3, 2, &mut r5);
+            recs.extend(homograph_recs(second, 0, 60, 3, 2, &mut r5));
+            let case = Case { base: Base::System(good_matrix(3, 2, &mut Rng::new(3))), recs };
+            emit(&mut sink, &env, &mut rng, &case, &format!("directed_homographs_127_and_{}", second));
+        }
     }
     // split units that do not spell the headword (known finding)
     {
@@ -1812,9 +2012,42 @@ pub fn run(args: &Args) {
             ("directed_matrix_fails_at_a_line", vec![conn_op(m(5, 5), &mut r9), lex_op(big.clone()), conn_op(fail_line.clone(), &mut r9), HOp::Compile]),
             ("directed_compile_resolve_compile", vec![conn_op(m(5, 5), &mut r9), lex_op(big.clone()), HOp::Compile, HOp::Resolve, HOp::Compile, lex_op(small_ok.clone()), HOp::Compile]),
             ("directed_no_matrix", vec![lex_op(small_ok.clone()), HOp::Compile]),
+            // whatever was validated at some earlier call, compile answers for the state it finds: a smaller matrix read after
+            // resolve (with and without a matrix before it, after one or two resolves, failing half-way, after a compile)
+            ("directed_resolve_then_smaller_matrix", vec![conn_op(m(5, 5), &mut r9), lex_op(big.clone()), HOp::Resolve, conn_op(m(2, 2), &mut r9), HOp::Compile]),
+            ("directed_resolve_then_smaller_matrix", vec![conn_op(m(5, 5), &mut r9), lex_op(big.clone()), HOp::Resolve, HOp::Resolve, conn_op(m(2, 2), &mut r9), HOp::Compile, HOp::Compile]),
+            ("directed_resolve_then_smaller_matrix", vec![lex_op(big.clone()), HOp::Resolve, conn_op(m(5, 5), &mut r9), HOp::Compile, conn_op(m(2, 2), &mut r9), HOp::Resolve, HOp::Compile]),
+            ("directed_resolve_then_smaller_matrix_failing_at_a_line", vec![conn_op(m(5, 5), &mut r9), lex_op(big.clone()), HOp::Resolve, conn_op(fail_line.clone(), &mut r9), HOp::Compile]),
+            ("directed_resolve_then_non_square_matrix", vec![conn_op(m(5, 5), &mut r9), lex_op(big.clone()), HOp::Resolve, conn_op(m(5, 2), &mut r9), HOp::Compile, conn_op(m(2, 5), &mut r9), HOp::Compile]),
+            ("directed_dangling_reference_between_resolves", vec![conn_op(m(2, 2), &mut r9), lex_op(small_ok.clone()), HOp::Resolve, lex_op(dangling.clone()), HOp::Resolve, HOp::Compile]),
         ];
         for (shape, ops) in &directed {
             emit_history(&mut sink, &env, false, ops, shape, false);
+        }
+        // user-dictionary builders: rows with ids beyond the system dictionary's matrix / a dangling reference after resolve
+        {
+            let ok = chunk(3, 2, SYS_NL, SYS_NR, &mut r9);
+            let mut edge = chunk(4, 1, SYS_NL, SYS_NR, &mut r9);
+            edge[0].left = Num::Lit(SYS_NR);
+            edge[0].right = Num::Lit(0);
+            let mut dang = chunk(5, 1, SYS_NL, SYS_NR, &mut r9);
+            dang[0].wstruct = vec![Wid::Lit(true, 40)];
+            emit_history(&mut sink, &env, true, &[lex_op(ok.clone()), HOp::Resolve, lex_op(edge), HOp::Compile], "directed_user_rows_after_resolve", false);
+            emit_history(&mut sink, &env, true, &[lex_op(ok.clone()), HOp::Resolve, HOp::Compile, lex_op(dang), HOp::Compile, HOp::Resolve, HOp::Compile], "directed_user_rows_after_resolve", false);
+        }
+        // homographs spread over several read_lexicon calls count together: 64 + 63 compile, one more does not
+        for user in [false, true] {
+            let (nl, nr) = if user { (SYS_NL, SYS_NR) } else { (3, 2) };
+            let mut r6 = Rng::new(66);
+            let a = homograph_recs(64, 1, 50, nl, nr, &mut r6);
+            let b: Vec<Rec> = homograph_recs(63, 0, 50, nl, nr, &mut r6).into_iter().skip(1).filter(|r| r.surface == surface_of(50)).collect();
+            let c: Vec<Rec> = homograph_recs(1, 0, 50, nl, nr, &mut r6).into_iter().filter(|r| r.surface == surface_of(50)).collect();
+            let mut ops = vec![];
+            if !user {
+                ops.push(conn_op(good_matrix(nl, nr, &mut Rng::new(3)), &mut r9));
+            }
+            ops.extend(vec![lex_op(a), lex_op(b), HOp::Resolve, HOp::Compile, lex_op(c), HOp::Compile]);
+            emit_history(&mut sink, &env, user, &ops, "directed_homographs_over_several_calls", false);
         }
     }
     for i in 0..args.n(260, 4000) {
